@@ -33,16 +33,23 @@ func (ctl *HTTPGroupController) Register(
 	routeConfig vhost.RouteConfig,
 ) (err error) {
 	indexKey := group
+	// Hold the controller lock until the join is complete (same order as UnRegister), so that it
+	// cannot interleave with the last member leaving (which removes the group from the controller).
 	ctl.mu.Lock()
+	defer ctl.mu.Unlock()
 	g, ok := ctl.groups[indexKey]
 	if !ok {
 		g = NewHTTPGroup(ctl)
 		ctl.groups[indexKey] = g
 	}
-	ctl.mu.Unlock()
 
 	verifhook.At("server.group.http.afterLookup", group, proxyName)
-	return g.Register(proxyName, group, groupKey, routeConfig)
+	err = g.Register(proxyName, group, groupKey, routeConfig)
+	if err != nil && !ok {
+		// don't keep an empty group that was created only for this failed join
+		delete(ctl.groups, indexKey)
+	}
+	return
 }
 
 func (ctl *HTTPGroupController) UnRegister(proxyName, group string, _ vhost.RouteConfig) {
